@@ -893,3 +893,67 @@ pub fn replay_bb(v: &Value) -> Result<Option<CaseResult>, String> {
         serde_json::from_value(v["case"].clone()).map_err(|e| format!("bad BB case: {}", e))?;
     Ok(Some(eval_bb(&case, name)))
 }
+
+pub fn eval_c20_bb(case: &BbCase) -> CaseResult {
+    let g = &case.graph;
+    let mut res = CaseResult {
+        sample: bb_summary(case),
+        ..Default::default()
+    };
+    let aggs: Vec<usize> = (0..g.n()).filter(|&i| g.targets[i].kind == Kind::Aggregate).collect();
+    let gi = match case.roots.iter().copied().find(|r| aggs.contains(r)).or_else(|| aggs.last().copied()) {
+        Some(x) => x,
+        None => {
+            res.classes.push("no-aggregate".into());
+            return res;
+        }
+    };
+    let others: Vec<usize> = case.roots.iter().copied().filter(|&r| r != gi).collect();
+    let mut a = case.clone();
+    a.roots = vec![gi];
+    a.roots.extend(others.iter().copied());
+    a.rendezvous.clear();
+    let mut b = a.clone();
+    b.roots = g.edges(gi);
+    b.roots.extend(others.iter().copied());
+    if b.roots.is_empty() {
+        res.classes.push("empty-aggregate-alone".into());
+        return res;
+    }
+    let oa = run_bb_case(&a, &[], "c20a");
+    let ob = run_bb_case(&b, &[], "c20b");
+    if oa.timed_out || ob.timed_out {
+        res.inconclusive = Some("still busy at wall budget".into());
+        return res;
+    }
+    let nested = g.edges(gi).iter().any(|&d| g.targets[d].kind == Kind::Aggregate);
+    let empty = g.edges(gi).is_empty();
+    let has_svc = g.has_service_behind(gi);
+    res.nontrivial = nested || empty || has_svc;
+    res.classes = vec![
+        if nested { "nested-aggregate" } else { "flat" }.to_string(),
+        if empty { "empty-aggregate" } else { "non-empty" }.to_string(),
+        if has_svc { "aggregate-over-service" } else { "builds-only" }.to_string(),
+    ];
+    res.fingerprint = format!("{:?}|{:?}", res.classes, g.classes(&a.roots));
+    let va = observable(&a, &oa);
+    let vb = observable(&b, &ob);
+    let mut same = va["ran"] == vb["ran"] && va["kept_alive"] == vb["kept_alive"] && va["ok"] == vb["ok"];
+    if oa.idle_alive && ob.idle_alive {
+        same = same && va["services"] == vb["services"];
+    }
+    if !same {
+        let msg = format!(
+            "requesting aggregate {} gave {}, requesting its dependencies instead gave {}",
+            g.ids(gi),
+            va,
+            vb
+        );
+        res.signature = Some("bb-c20:differs".into());
+        res.replay = json!({"engine": "BB-c20", "case": serde_json::to_value(case).unwrap(), "summary": bb_summary(case), "message": msg,
+            "A": {"requested": a.roots.iter().map(|&r| g.ids(r)).collect::<Vec<_>>(), "observed": va},
+            "B": {"requested": b.roots.iter().map(|&r| g.ids(r)).collect::<Vec<_>>(), "observed": vb}});
+        res.violation = Some(msg);
+    }
+    res
+}
